@@ -508,7 +508,7 @@ def run(ctx):
     quick = ctx.tier == 'quick'
     n_unit = 150 if quick else 1500
     n_mal = 25 if quick else 150
-    n_pipe = 18 if quick else 220
+    n_pipe = 50 if quick else 400
     for i in range(n_unit):
         check_unit(ctx, gen_unit(rng, i))
     for i in range(n_mal):
